@@ -19,7 +19,7 @@ RULE = (
 )
 ASSUMPTIONS = ["checksum-only damage: the three CRC bytes are replaced by a different value; header and payload intact"]
 GATES = ["settings_compared", "validate0_twin_checked", "parsed_false_checked", "offsets_compared",
-         "static_validate0_checked"]
+         "static_validate0_checked", "seekable_backend", "plain_backend"]
 
 
 def make(rng, with_damage):
@@ -30,9 +30,31 @@ def make(rng, with_damage):
         if k < 0.55:
             kind = rng.choice(("defined", "defined", "unknown", "len255", "defmax"))
             fr, p, _ = streams.rand_frame(rng, kind)
-            if with_damage and rng.random() < 0.35:
-                bad = fr[:-3] + bytes(x ^ m for x, m in zip(fr[-3:], (rng.randint(1, 255), rng.getrandbits(8),
-                                                                     rng.getrandbits(8))))
+            if with_damage and rng.random() < 0.2:
+                # equal-length frames of one fixed-size type, later given the SAME bogus trailer
+                fr = refcrc.frame(streams.rand_defined_payload(rng, rng.choice(("1005", "1006", "1019", "1020"))))
+            if with_damage and rng.random() < 0.15:
+                # unknown-type frame whose payload embeds sync-like material (a complete small frame, an
+                # NMEA start, a UBX header): all of it belongs to this frame
+                emb = rng.choice((refcrc.frame(streams.rand_unknown_payload(rng, rng.randint(2, 12))),
+                                  b"$GNGGA,1,2,3", b"\xb5\x62\x01\x02" + bytes([rng.randint(0, 200), 0]),
+                                  b"\xd3\x00\x02"))
+                pre = streams.rand_unknown_payload(rng, rng.randint(2, 9))
+                fr = refcrc.frame(pre + emb + bytes(rng.getrandbits(8) for _ in range(rng.randint(0, 6))))
+            if with_damage and rng.random() < 0.4:
+                style = rng.random()
+                if style < 0.5:
+                    tr = bytes(x ^ m for x, m in zip(fr[-3:], (rng.randint(1, 255), rng.getrandbits(8), rng.getrandbits(8))))
+                elif style < 0.7:
+                    tr = b"\x00\x00\x00"
+                elif style < 0.8:
+                    tr = b"\xff\xff\xff"
+                else:
+                    prev = [b for k2, b, _ in items if k2 in ("frame", "badcrc")]
+                    tr = prev[-1][-3:] if prev else b"\x00\x00\x01"
+                if tr == fr[-3:]:
+                    tr = bytes([tr[0] ^ 1]) + tr[1:]
+                bad = fr[:-3] + tr
                 items.append(("badcrc", bad, fr))
             else:
                 items.append(("frame", fr, fr))
@@ -45,11 +67,12 @@ def make(rng, with_damage):
     return items
 
 
-def drive(data, validate, parsed, labelmsm, mode):
+def drive(data, validate, parsed, labelmsm, mode, seekable=False):
     from pyrtcm import RTCMReader
 
     libs = common.lib_errors()
-    ds = doubles.RecordingStream(data, budget=3 * len(data) + 16)
+    cls = doubles.SeekableRecordingStream if seekable else doubles.RecordingStream
+    ds = cls(data, budget=6 * len(data) + 16)
     rdr = RTCMReader(ds, validate=validate, parsed=parsed, labelmsm=labelmsm, quitonerror=mode,
                      errorhandler=(lambda e: None))
     out = []
@@ -74,11 +97,13 @@ def eq(a, b):
     return len(a) == len(b) and all(n1 == n2 and refmodel.values_equal(v1, v2) for (n1, v1), (n2, v2) in zip(a, b))
 
 
-def run_case(ctx, items, labelmsm):
+def run_case(ctx, items, labelmsm, seekable=False):
     from pyrtcm import RTCMMessage, RTCMReader
 
     data = b"".join(b for _, b, _ in items)
-    params = {"items": [[k, b.hex(), (t.hex() if t else None)] for k, b, t in items], "labelmsm": labelmsm}
+    params = {"items": [[k, b.hex(), (t.hex() if t else None)] for k, b, t in items], "labelmsm": labelmsm,
+              "seekable": seekable}
+    ctx.hit("seekable_backend" if seekable else "plain_backend")
     sent = [(b, t) for k, b, t in items if k in ("frame", "badcrc")]
     has_damage = any(k == "badcrc" for k, _, _ in items)
     runs = {}
@@ -86,7 +111,7 @@ def run_case(ctx, items, labelmsm):
         for validate in (0, 1):
             for parsed in (True, False):
                 for mode in (0, 1, 2):
-                    runs[(validate, parsed, mode)] = drive(data, validate, parsed, labelmsm, mode)
+                    runs[(validate, parsed, mode)] = drive(data, validate, parsed, labelmsm, mode, seekable)
     except BaseException as e:
         ctx.violation("reader-raised", f"{type(e).__name__}: {e}", params)
         return
@@ -162,10 +187,10 @@ def run(ctx):
     common.quiet_logging()
     rng = ctx.rng
     for i in range(ctx.n(4000, 60000)):
-        run_case(ctx, make(rng, with_damage=bool(i % 2)), 1 + (i // 2) % 2)
+        run_case(ctx, make(rng, with_damage=bool(i % 2)), 1 + (i // 2) % 2, seekable=bool((i // 4) % 2))
 
 
 def replay(ctx, p):
     common.quiet_logging()
     items = [(k, bytes.fromhex(b), (bytes.fromhex(t) if t else None)) for k, b, t in p["items"]]
-    run_case(ctx, items, p["labelmsm"])
+    run_case(ctx, items, p["labelmsm"], p.get("seekable", False))
